@@ -15,7 +15,7 @@ def run(ctx):
                 'find_neighbor_pairs_index, calculate_neighbor_numbers, isdist1, nndist_hamming on subsets of the short binary strings '
                 'and random amino-acid sets. non-trivial := the string has a run of repeated letters (the duplicate-suppression case) '
                 'or the reference set contains a neighbour')
-    L = 4 if ctx.quick else 5
+    L = 4 if ctx.quick else 6
     strs = []
     for alpha in ('A', 'AC', 'ACD'):
         strs += [(alpha, s) for s in all_strings(alpha, L)]
@@ -80,9 +80,9 @@ def run(ctx):
     # set utilities
     uni = all_strings('AC', 3)
     sets = []
-    for _ in range(60 if ctx.quick else 1500):
+    for _ in range(60 if ctx.quick else 6000):
         sets.append(('AC', rng.sample(uni, rng.randint(0, min(8, len(uni))))))
-    for _ in range(20 if ctx.quick else 300):
+    for _ in range(20 if ctx.quick else 1500):
         root = ''.join(rng.choice(gens.AA) for _ in range(rng.randint(2, 7)))
         ss = list({gens.mutate(rng, root, gens.AA, rng.randint(0, 3)) for _ in range(rng.randint(1, 8))})
         sets.append((gens.AA, ss))
@@ -134,7 +134,7 @@ def run(ctx):
                           dict(func='isdist1', x=x, ref=ss, hamming=ham, alphabet=al), site='distance.isdist1')
     # nndist_hamming (alphabet is the amino acids)
     nreq, ncase = [], []
-    for _ in range(60 if ctx.quick else 600):
+    for _ in range(60 if ctx.quick else 6000):
         Lx = rng.randint(1, 5)
         x = ''.join(rng.choice('ACD') for _ in range(Lx))
         ref = [''.join(rng.choice('ACDEF') for _ in range(rng.choice([Lx, Lx, Lx + 1]))) for _ in range(rng.randint(0, 5))]
